@@ -196,6 +196,9 @@ EXTRA = [
     ["name a6", "version 1.0", ""] + sum(([("float array A%d[2, 2] =" % k), "    %(f)s, %(f)s", "    %(f)s, %(f)s", "float x%d = A%d[0]" % (k, k), "float y%d = A%d[3]" % (k, k)] for k in range(6)), []) + [
         "Dgate(x0, y1) | %(m)s", "Sgate(x2*y3, k=A4[2]) | %(m)s", "Rgate(A5[1]+x5, y4) | %(m)s"],
     ["name a12", "version 1.0", ""] + sum(([("float array A%d =" % k), "    %(f)s, %(f)s", "float x%d = A%d[1]" % (k, k)] for k in range(12)), []) + ["Dgate(x0, x11) | %(m)s"],
+    # the same source text evaluated in another variable environment (value lists, arguments and indices written with names only)
+    ["name v4", "version 1.0", "", "int n = %(i)s", "float x = %(f)s", "for int i in [n, n+1, 2*n]", "    Dgate(x, k=x*2) | i", "for float t in [x, x/2]", "    Rgate(t) | n"],
+    ["name v5", "version 1.0", "", "float array A =", "    %(f)s, %(f)s", "int k = 1", "float y = A[k]", "Dgate(y, A[0]) | k", "Gate(A, vals=[y, y*2]) | [k, 2*k]"],
     ["name r1", "version 1.0", "", "MeasureX | 0", "MeasureP | 1", "Dgate(-2*q0) | %(m)s", "Sgate(q0-2*q1, k=1/q1**2) | %(m)s", "Zgate(-q1) | %(m)s"],
     ["name r2", "version 1.0", "", "MeasureX | 0", "Dgate(-1*q0, %(f)s) | %(m)s", "Dgate(3*q0-1) | %(m)s"],
 ]
